@@ -468,7 +468,7 @@ def obfuscation_reset_definition(eng: Engine, ck: Check, rule: str, relies: str)
     types = {st.targets[0].id for st in eng.cls('PeerConnectionType', CONN).node.body
              if isinstance(st, ast.Assign) and isinstance(st.targets[0], ast.Name) and not st.targets[0].id.startswith('_')}
     stores = [st for st in walk_local(m.node) if isinstance(st, ast.Assign) and any(unparse(t) == 'self.obfuscated' for t in st.targets) and const(st.value) is False]
-    reach_s, reach_t = set(), set()
+    reached: set[tuple[str, str]] = set()           # (state, type) pairs for which some store runs
     for st in stores:
         adm_s, adm_t = set(states), set(types)
         for e_, pol_, _ in eng.guards_at(m, st):
@@ -485,16 +485,14 @@ def obfuscation_reset_definition(eng: Engine, ck: Check, rule: str, relies: str)
                     adm_t &= named if p2 else types - named
                 else:
                     adm_s = adm_t = set()
-        if adm_s and adm_t:
-            # the store is reached for adm_s x adm_t
-            if adm_t >= types - {'PEER'}:
-                reach_s |= adm_s
-            if adm_s >= states - {'AWAITING_INIT'}:
-                reach_t |= adm_t
+        reached |= {(s_, t_) for s_ in adm_s for t_ in adm_t}
     want_s, want_t = states - {'AWAITING_INIT'}, types - {'PEER'}
-    ok = reach_s >= want_s and reach_t >= want_t and 'PEER' not in reach_t and 'AWAITING_INIT' not in reach_s
+    want = {(s_, t_) for s_ in want_s for t_ in want_t}
+    ok = reached == want
+    reach_s, reach_t = {s_ for s_, _ in reached}, {t_ for _, t_ in reached}
+    missing = sorted(want - reached)
     ck.ob(rule, m, m.node, f'set_connection_state clears `obfuscated` exactly for the states {sorted(want_s)} and the types {sorted(want_t)} ({relies})', ok,
-          f'cleared for states {sorted(reach_s)} x types {sorted(reach_t)}: a connection outside that set keeps obfuscating after the init message (a distributed connection '
+          f'cleared for states {sorted(reach_s)} x types {sorted(reach_t)}, not for {missing[:4]}, wrongly for {sorted(reached - want)[:4]}: a connection outside that set keeps obfuscating after the init message (a distributed connection '
           'over an obfuscated port is returned as established but neither side understands the other), or a peer connection stops obfuscating', construct='obfuscation reset')
 
 
